@@ -61,9 +61,12 @@ def check(rep, tier, seed, specs=None, n_override=None):
                               spec, detail=r.get('describe'))
         if r.get('collapse_diff'):
             rep.add_violation('collapse-changes-output', f"outputs differ between collapse settings {r.get('collapse_cfg')}: "
-                              f"{r['collapse_diff'][:6]}", spec, mech='KF-NESTED' if r.get('has_nested') else ('KF-CTX' if (r.get('collapse_diff_ctx') or (r.get('feature') or {}).get('rule', '').startswith('pepsin')) else None),
+                              f"{r['collapse_diff'][:6]}", spec, mech='KF-CIRC-LAP-MIX' if r.get('collapse_diff_lapmix') else 'KF-NESTED' if r.get('has_nested') else ('KF-CTX' if (r.get('collapse_diff_ctx') or (r.get('feature') or {}).get('rule', '').startswith('pepsin')) else None),
                               detail=r.get('describe'))
-        if r.get('collapse_error'):
+        if r.get('collapse_error') and 'Failed to finish transcript' in r['collapse_error']:
+            # the second run (other collapse setting) exhausted the wall-clock limit: never a verdict
+            rep.count('tool_timeouts')
+        elif r.get('collapse_error'):
             rep.add_violation('collapse-run-crash', r['collapse_error'], spec, detail=r.get('describe'))
     if lost:
         rep.inconclusive.append(f'{len(lost)} cases lost')
